@@ -382,6 +382,15 @@ OBSERVED = "; ".join(bad[:3]) or "every built-in gate with distinct numeric para
 """
 
 
+def _shadow_refuted(backend, detail, cex=None, replay=None):
+    """a failure of the opaque-object protocol (placeholder gates / parameters) is a counterexample only if its concrete twin fails on the real code: when the
+    native replay of the same shape passes, the text merely left the fragment the placeholders can follow (e.g. it serialises a parameter without calling
+    serialize_expr) - undecided, the enumerations over real gates decide"""
+    if replay is not None and replay.get("reproduced") is False and "timed out" not in str(replay.get("observed")) and "no verdict" not in str(replay.get("observed")):
+        return core.undecided(backend, f"{detail} - but the concrete twin of this case round-trips on the real code ({str(replay.get('observed'))[:160]}): outside the placeholder protocol")
+    return core.refuted(backend, detail, cex=cex, replay=replay)
+
+
 class _AbsGate:
     """an arbitrary gate the (de)serialisers must treat as a black box; equality is identity"""
     free_symbols = ()
@@ -447,17 +456,17 @@ def _induction_obs():
                     except (AttributeError, TypeError) as e:
                         if "_AbsGate" in str(e):
                             return core.undecided("shadow-execution", f"the code reads more of the wrapped gate than name / free_symbols / params / num_qubits: {e}")
-                        return core.refuted("shadow-execution", f"{kind} wrapper around an arbitrary gate named {name!r}: the round trip raises {type(e).__name__}: {e}",
+                        return _shadow_refuted("shadow-execution", f"{kind} wrapper around an arbitrary gate named {name!r}: the round trip raises {type(e).__name__}: {e}",
                                             cex={"wrapper": kind, "wrapped_gate_name": name}, replay=rp.replay_dict(_induction_replay(kind, name), "round trip is the identity"))
                     except Exception as e:
-                        return core.refuted("shadow-execution", f"{kind} wrapper around an arbitrary gate named {name!r}: the round trip raises {type(e).__name__}: {e}",
+                        return _shadow_refuted("shadow-execution", f"{kind} wrapper around an arbitrary gate named {name!r}: the round trip raises {type(e).__name__}: {e}",
                                             cex={"wrapper": kind, "wrapped_gate_name": name}, replay=rp.replay_dict(_induction_replay(kind, name), "round trip is the identity"))
                     q += 1
                     if type(back) is not type(w) or back != w or back.wrapped_gate is not g:
-                        return core.refuted("shadow-execution", f"{kind} wrapper around an arbitrary gate named {name!r}: {w!r} serialises to {text} and comes back as {back!r}",
+                        return _shadow_refuted("shadow-execution", f"{kind} wrapper around an arbitrary gate named {name!r}: {w!r} serialises to {text} and comes back as {back!r}",
                                             cex={"wrapper": kind, "wrapped_gate_name": name}, replay=rp.replay_dict(_induction_replay(kind, name), "round trip is the identity"))
                     if isinstance(back, G.ControlledGate) and back.num_control_qubits != w.num_control_qubits or isinstance(back, G.Power) and back.exponent != w.exponent:
-                        return core.refuted("shadow-execution", f"{kind}: control count / exponent changed")
+                        return _shadow_refuted("shadow-execution", f"{kind}: control count / exponent changed")
             return core.discharged("shadow-execution", time.time() - t0, queries=q, sample={"wrapped_gate_name_shapes": NAMES, "cases": q})
         return Ob(f"C05.induction[{kind}]", "proof", [S + ":_special_gate_from_dict", S + ":_gate_from_dict", S + ":to_dict"], run,
                   f"induction step: a {kind} wrapper around an ARBITRARY gate that round-trips comes back as the same wrapper (class, control count / exponent) around the same gate, "
@@ -475,7 +484,7 @@ def _induction_obs():
             back = ns["_gate_operation_from_dict"](_json.loads(_json.dumps(ns["to_dict"](op))), [])
             q += 1
             if type(back) is not G.GateOperation or back.gate is not g or back.qubit_indices != qs or not isinstance(back.qubit_indices, tuple):
-                return core.refuted("shadow-execution", f"operation of an arbitrary gate on qubits {qs} comes back as {back!r}", cex={"qubits": list(qs)})
+                return _shadow_refuted("shadow-execution", f"operation of an arbitrary gate on qubits {qs} comes back as {back!r}", cex={"qubits": list(qs)})
         # circuits: any sequence of operations that round-trip individually, any declared width
         for L in range(0, 6):
             for extra in (0, 1, 3):
@@ -485,7 +494,7 @@ def _induction_obs():
                 back = ns["circuit_from_dict"](_json.loads(_json.dumps(ns["to_dict"](c))))
                 q += 1
                 if back.n_qubits != width or len(back.operations) != L or any(b.gate is not o.gate or b.qubit_indices != o.qubit_indices for b, o in zip(back.operations, ops)):
-                    return core.refuted("shadow-execution", f"circuit of {L} arbitrary operations, width {width}: comes back with width {back.n_qubits} and {len(back.operations)} operations "
+                    return _shadow_refuted("shadow-execution", f"circuit of {L} arbitrary operations, width {width}: comes back with width {back.n_qubits} and {len(back.operations)} operations "
                                                             f"(order / qubits / gates changed)", cex={"length": L, "width": width})
         return core.discharged("shadow-execution", time.time() - t0, queries=q)
     class _AbsParam:
@@ -544,12 +553,12 @@ def _induction_obs():
                 d = ns["to_dict"](g)
                 back = gfd(_json.loads(_json.dumps(d)), [])
             except Exception as e:
-                return core.refuted("shadow-execution", f"built-in gate {n} with arbitrary parameters: the round trip raises {type(e).__name__}: {e}", cex={"gate": n},
+                return _shadow_refuted("shadow-execution", f"built-in gate {n} with arbitrary parameters: the round trip raises {type(e).__name__}: {e}", cex={"gate": n},
                                     replay=rp.replay_dict(_BASE_REPLAY, "round trip is the identity"))
             q += 1
             if type(back) is not type(g) or back.name != g.name or back.matrix_factory is not g.matrix_factory or len(back.params) != len(g.params) or \
                     any(a is not b for a, b in zip(back.params, g.params)) or back.num_qubits != g.num_qubits or back.is_hermitian != g.is_hermitian:
-                return core.refuted("shadow-execution", f"built-in gate {n} with arbitrary parameters {g.params} serialises to {d} and comes back as {back.name}{back.params}",
+                return _shadow_refuted("shadow-execution", f"built-in gate {n} with arbitrary parameters {g.params} serialises to {d} and comes back as {back.name}{back.params}",
                                     cex={"gate": n})
         if max_arity < 2:
             return core.undecided("shadow-execution", "no built-in factory with two or more parameters was exercised (order of parameters not covered)")
@@ -570,13 +579,13 @@ def _induction_obs():
                         # the factory substitutes the arguments into the matrix only when the matrix is asked for; anything that needs the VALUE of an abstract
                         # parameter is outside this obligation
                         return core.undecided("shadow-execution", f"custom gate instance needs the value of an abstract parameter: {e}")
-                    return core.refuted("shadow-execution", f"custom gate instance with {arity} arbitrary arguments, definition at position {pos}: raises {e}")
+                    return _shadow_refuted("shadow-execution", f"custom gate instance with {arity} arbitrary arguments, definition at position {pos}: raises {e}")
                 except Exception as e:
-                    return core.refuted("shadow-execution", f"custom gate instance with {arity} arbitrary arguments, definition at position {pos}: raises {type(e).__name__}: {e}",
+                    return _shadow_refuted("shadow-execution", f"custom gate instance with {arity} arbitrary arguments, definition at position {pos}: raises {type(e).__name__}: {e}",
                                         replay=rp.replay_dict(_BASE_REPLAY, "round trip is the identity"))
                 q += 1
                 if back.name != "MyGate" or len(back.params) != arity or any(a is not b for a, b in zip(back.params, args)) or back.matrix_factory.gate_definition is not wanted:
-                    return core.refuted("shadow-execution", f"custom gate instance with arguments {args}, definition at position {pos} of {len(defs)}: comes back as {back.name}{back.params}",
+                    return _shadow_refuted("shadow-execution", f"custom gate instance with arguments {args}, definition at position {pos} of {len(defs)}: comes back as {back.name}{back.params}",
                                         replay=rp.replay_dict(_BASE_REPLAY, "round trip is the identity"))
         return core.discharged("shadow-execution", time.time() - t0, queries=q, sample={"builtin_factories": names, "cases": q})
     out = [step(k) for k in ("controlled", "dagger", "exponential", "power")]
